@@ -43,26 +43,28 @@ def real_param(pid):
 _DEFS = {}
 
 
-def gdef(name):
+def gdef(name, alt=False):
+    """alt: ANOTHER definition carrying the same name, formal parameters and size (definitions belong to a circuit, not to the process)"""
     import sympy
     from orquestra.quantum.circuits import CustomGateDefinition
 
-    if name not in _DEFS:
+    key = (name, alt)
+    if key not in _DEFS:
         if name == "G0":
-            _DEFS[name] = CustomGateDefinition("G0", sympy.Matrix([[0, 1], [sympy.I, 0]]), ())
+            _DEFS[key] = CustomGateDefinition("G0", sympy.Matrix([[0, sympy.I], [1, 0]]) if alt else sympy.Matrix([[0, 1], [sympy.I, 0]]), ())
         else:
             a, b = sympy.Symbol("a"), sympy.Symbol("b")
             rz = sympy.Matrix([[sympy.exp(-sympy.I * a / 2), 0], [0, sympy.exp(sympy.I * a / 2)]])
             rx = sympy.Matrix([[sympy.cos(b / 2), -sympy.I * sympy.sin(b / 2)], [-sympy.I * sympy.sin(b / 2), sympy.cos(b / 2)]])
-            _DEFS[name] = CustomGateDefinition("G2", rz * rx, (a, b))
-    return _DEFS[name]
+            _DEFS[key] = CustomGateDefinition("G2", rx * rz if alt else rz * rx, (a, b))
+    return _DEFS[key]
 
 
 def expo(e):
     return {"2": 2, "-1": -1, "0.5": 0.5}[e]
 
 
-def build(t, api=False):
+def build(t, api=False, alt=False):
     """tree -> real gate; api=False: the wrapper classes' constructors, api=True: the modifier API from the base gate upwards"""
     from orquestra.quantum.circuits import builtin_gate_by_name
     from orquestra.quantum.circuits._gates import ControlledGate, Dagger, Exponential, Power
@@ -71,8 +73,8 @@ def build(t, api=False):
         g = builtin_gate_by_name(t["name"])
         return g(*[real_param(p) for p in t["ps"]]) if t["ps"] else g
     if t["k"] == "custom":
-        return gdef(t["name"])(*[real_param(p) for p in t["ps"]])
-    s = build(t["a"], api)
+        return gdef(t["name"], alt)(*[real_param(p) for p in t["ps"]])
+    s = build(t["a"], api, alt)
     if t["k"] == "ctrl":
         return s.controlled(t["n"]) if api else ControlledGate(s, t["n"])
     if t["k"] == "dag":
@@ -252,6 +254,15 @@ def check_case(ctx, c):
             finally:
                 if os.path.exists(p):
                     os.unlink(p)
+            # a later circuit may define a gate of the SAME name differently: it must come back with its own definition
+            if c["defs"]:
+                try:
+                    alt = Circuit([build(o["g"], False, alt=True)(*o["qs"]) for o in c["ops"]], n_qubits=c["n"])
+                    compare(desc + " [another definition under the same gate name, deserialised afterwards]", "JSON text", alt, circuit_from_dict(json.loads(json.dumps(to_dict(alt)))), out)
+                except Timeout:
+                    raise
+                except Exception as ex:
+                    out.append(("second-definition-raises", "%s: round trip of the same circuit with another definition of the same name raised %s: %s" % (desc, type(ex).__name__, str(ex)[:200])))
     except Timeout:
         return [("TIMEOUT", desc)]
     finally:
